@@ -19,7 +19,7 @@ def promiseCover : List ((String × String × String × String × String) × Str
   (("_compressed/compressed.py", "GCXS.change_compressed_axes", "GCXS", "triple", "triple"), "C05 leg A (convert_chain) + canonicity checker"),
   (("_compressed/compressed.py", "GCXS.reshape", "GCXS", "triple", "triple"), "C08 leg C + canonicity checker"),
   (("_compressed/compressed.py", "GCXS.transpose", "GCXS", "triple", "triple"), "C08 leg C + canonicity checker"),
-  (("_compressed/indexing.py", "getitem", "GCXS", "triple", "triple"), "C02 leg C + canonicity checker"),
+  (("_compressed/indexing.py", "_getitem", "GCXS", "triple", "triple"), "C02 leg C + canonicity checker"),
   (("_coo/common.py", "_without_stored_fill_values", "COO", "True", "False"), "theorem C06.filter_canonical: dropping stored fill values is a filter (added by the fix 59cc170)"),
   (("_coo/common.py", "concatenate", "COO", "axis == 0", "False"), "correspondence C09 leg A (concat_core); sorted only for axis 0"),
   (("_coo/common.py", "kron", "COO", "False", "False"), "has_duplicates=False only; C04 leg C + canonicity checker"),
